@@ -393,7 +393,7 @@ def run_check(tier, only_inputs=None):
     chk.assumptions += [
         "resource constants (Robust.tla): CPeak = CTotal = 256 bytes per input byte, KPeak = 128 KiB, KTotal = 256 KiB, derived from what "
         "well-formed inputs need with the catalogue's largest element type (176 bytes) and RapidJSON's 64 KiB first chunk",
-        "Hang = 10 s (normal build) / 60 s (sanitizer build) of CPU time for one call, or 3 / 13 min wall time",
+        "Hang = CPU time of one call above 10 s (normal build) / 60 s (sanitizer build) + 1 s per 10 KB of input, or 12 times that + 60 s of wall time",
         "undefined behaviour is observable only as a sanitizer report on the generated inputs (no coverage-guided search); UBSan is not "
         "applied to functions of namespace rapidjson (third-party header code)",
         "the ASan build counts and caps C++ allocations only; malloc-level requests of RapidJSON / pugixml are capped by max_allocation_size_mb",
